@@ -100,7 +100,7 @@ def dc_worker(_):
         dec = {}
         for k, v in o.state.decisions:
             dec[_dc_atom(k)] = v
-        stores = [(e[2], e[5], tuple(e[6] or ())) for e in o.state.trace if e[0] == "W"]
+        stores = [(e[2], e[5], tuple(e[6] or ())) for e in o.state.trace if e[0] == "W" and not str(e[2]).startswith("memo")]   # memo[id(self)] = new is bookkeeping
         copies = [e[1] for e in o.state.trace if e[0] == "CP"]
         rows.append({"kind": o.kind, "ret": vrepr(o.value) if o.kind == "ok" else o.value.cls,
                      "ret_prov": sorted(o.value.prov) if isinstance(o.value, Sym) else [],
@@ -292,3 +292,4 @@ def check(ctx, rep):
     from . import metarules, shared
     _check_main(ctx, rep)
     metarules.attr_spec_writers(ctx, rep, "C02.SPEC")
+    metarules.deepcopy_memo(ctx, rep, "C02.DC")
